@@ -64,9 +64,7 @@ def normRange (r : Range) : Range := r.map (·.map normComp)
 /-- do the code's parser and the reference parser read `spec` as the same range? -/
 def sameReading (spec : Text) : String :=
   match Npm.parseSpec spec, NodeSemver.parse spec with
-  | some s, some r =>
-    if !specBuildFree s then "build"
-    else if specRef s == normRange r then "same" else "diff"
+  | some s, some r => if specRef s == normRange r then "same" else "diff"
   | none, none => "bothinvalid"
   | some _, none => "code-only"
   | none, some _ => "ref-only"
